@@ -151,6 +151,7 @@ def enumerate_cases(tier: str):
                        "load_via": via, "final_saves": finals, "unlink_after_mid": unlink, "mid_saves": [1, 3]}
     yield {"kind": "direct", "registry": small, "legacy_nulls": False, "load_via": "own", "final_saves": 1, "nested_edit": True}
     for extra in ({"debug_log": True}, {"warnings": "error"}, {"repath": True}, {"repath": True, "final_saves": 2}, {"debug_log": True, "warnings": "error", "repath": True},
+                  {"tilde": True}, {"tilde": True, "final_saves": 2},
                   {"failed_load_first": "not json at all"}, {"failed_load_first": '{"1": {"node_id": 1, "node_ty'}, {"failed_load_first": "[]"}, {"failed_load_first": '{"1": 5}', "final_saves": 2}):
         for via in ("own", "arg"):
             yield {"kind": "direct", "registry": small, "legacy_nulls": False, "load_via": via, "final_saves": 1, **extra}
@@ -341,6 +342,16 @@ def run_case(case: dict) -> Outcome:
     path = os.path.join(scratch, "persistence.json")
     info = {"boundary": False, "snapshot": {}}
 
+    restore_env = None
+    if case.get("tilde"):
+        # the configured path starts with "~" (as typed into a settings file); the process runs in its data directory, HOME points elsewhere.
+        # Whatever the library makes of the tilde, saving and loading must agree on it.
+        restore_env = (os.getcwd(), os.environ.get("HOME"))
+        os.makedirs(os.path.join(scratch, "~"), exist_ok=True)
+        os.makedirs(os.path.join(scratch, "home"), exist_ok=True)
+        os.chdir(scratch)
+        os.environ["HOME"] = os.path.join(scratch, "home")
+        path = os.path.join("~", "persistence.json")
     built_outside = None
     if case.get("build") in ("outside", "two-runs"):
         try:
@@ -484,6 +495,12 @@ def run_case(case: dict) -> Outcome:
 
             bad = env.run(second_run())
     finally:
+        if restore_env is not None:
+            os.chdir(restore_env[0])
+            if restore_env[1] is None:
+                os.environ.pop("HOME", None)
+            else:
+                os.environ["HOME"] = restore_env[1]
         shutil.rmtree(scratch, ignore_errors=True)
     classes = (f"kind={case['kind']}", f"nodes={min(len(info['snapshot']), 4)}") + ((f"build={case['build']}",) if case.get("build") else ()) + (("boundary-value-in-registry",) if info["boundary"] else ())
     if bad is not None:
